@@ -76,7 +76,7 @@ func runCase(run *lib.Run, c int64, base string) {
 	}
 	dir := filepath.Join(base, fmt.Sprintf("c%d", c))
 	os.MkdirAll(dir, 0755)
-	defer os.RemoveAll(dir)
+	defer lib.RemoveLater(dir)
 	run.Eval()
 	net, err := sim.NewNet(sim.Config{Powers: p, Real: real, Dir: dir, Label: "c12"})
 	if err != nil {
